@@ -247,7 +247,7 @@ class Item:
         self._add(pos + len(anchor), 'ins', 0, '\n        ' + ghost.strip())
         return self
 
-    def wrap(self, open_anchor, close_anchor, ghost, occ=1, close_occ=1):
+    def wrap(self, open_anchor, close_anchor, ghost, occ=1, close_occ=1, after=False):
         """desugaring 4: `E` => `{ <ghost> E }` where E starts right after open_anchor and ends with
         close_anchor (first occurrence after the open anchor)."""
         check_ghost_statements(ghost, self.name)
@@ -263,8 +263,13 @@ class Item:
         except LostAnchor as e:
             self.lost.append(e.what)
             return self
-        self._add(a, 'wrap_open', 0, '{ ' + ghost.strip() + '\n        ')
-        self._add(b, 'wrap_close', 0, ' }')
+        if after:
+            # `E` => `{ E; <ghost> }` (only for expressions of type (), e.g. an assignment used as a match arm)
+            self._add(a, 'wrap_open', 0, '{ ')
+            self._add(b, 'wrap_close', 0, ';\n        ' + ghost.strip() + ' }')
+        else:
+            self._add(a, 'wrap_open', 0, '{ ' + ghost.strip() + '\n        ')
+            self._add(b, 'wrap_close', 0, ' }')
         return self
 
     def closure(self, anchor, params, spec, occ=1):
